@@ -579,6 +579,29 @@ func rulesC18(c *Ctx) {
 				}
 			}
 		}
+		// expiry of one entry evicts that entry only: the whole cache is cleared by invalidate alone
+		cvF0 := c.Field(pM, "methodCache", "cachedValues")
+		nDrop := 0
+		for _, f := range c.funcsWithLits(pM) {
+			if f.Root().Recv() == nil {
+				continue
+			}
+			if rn := namedOf(f.Root().Recv().Type()); rn == nil || rn.Origin().Obj().Name() != "methodCache" {
+				continue
+			}
+			for _, call := range f.AllCalls(f.Body, false) {
+				switch {
+				case f.BuiltinName(call) == "clear" && len(call.Args) == 1 && f.IsField(call.Args[0], cvF0):
+					nDrop++
+					c.Check(f.Root().Obj.Name() == "invalidate", "methodCache:clear-only-in-invalidate:"+f.Name(), f, call, "the whole cache is dropped only by invalidate (a stale page found by get evicts that page, not its neighbours: other pages are what lookupTool reads the x-mcp-header annotations from)")
+				case f.BuiltinName(call) == "delete" && len(call.Args) == 2 && f.IsField(call.Args[0], cvF0):
+					nDrop++
+					keyP := f.Root().ParamWhere(func(t types.Type) bool { b, ok := t.(*types.Basic); return ok && b.Kind() == types.String })
+					c.Check(keyP != nil && f.ObjOf(call.Args[1]) == types.Object(keyP), "methodCache:delete-own-key:"+f.Name(), f, call, "a single-entry eviction removes the key the method was asked about")
+				}
+			}
+		}
+		c.Pin("evictions in methodCache", nDrop, 3)
 		c.Check(okCmp, "putIfCurrent:stores-only-if-generation-unchanged", p, nil, "the store happens only under mc.gen == gen, with the cache lock held")
 		// every invalidation method reachable from the notification handlers bumps gen
 		for _, name := range []string{"invalidate", "invalidateKey"} {
